@@ -27,7 +27,7 @@ func (r *run) liveAssoc(c int) *assocInfo {
 		}
 		ai := r.assocs[a]
 		left := time.Until(ai.hiDl)
-		if ai.nw > 0 && left < 130*time.Millisecond {
+		if !ai.hiDl.IsZero() && left < 130*time.Millisecond {
 			// too close to (or past) the deadline: let it expire
 			waitUntil(left+3*time.Second, func() bool {
 				r.emitM(r.rec.take(&r.mcur), 0, 0)
@@ -93,6 +93,9 @@ func (r *run) packFor(k int, plaintext []byte) ([]byte, string) {
 func (r *run) doCDgram(st step) {
 	c := r.clients[st.C]
 	dst := r.w.socks[st.Dst]
+	if ua, ok := r.w.unsend[st.Dst]; ok {
+		dst = &sock{tok: st.Dst, name: "unsendable", addr: ua, fam: "v4"}
+	}
 	var dstHdr []byte
 	if nd, ok := r.w.names[st.Dst]; ok {
 		dst = r.w.socks[nd.sock]
@@ -139,6 +142,10 @@ func (r *run) doCDgram(st step) {
 		pt, cls = badHeader(r.rng, payload)
 	}
 	pkt, form := r.packFor(st.K, pt)
+	r.stepTO = natT
+	if dst.addr.Port == 53 {
+		r.stepTO = dnsT
+	}
 	t0 := time.Now()
 	r.tr.Emit(map[string]any{"ev": "CSend", "id": did, "c": st.C, "k": st.K, "hdr": st.Hdr, "dst": st.Dst, "sz": sz, "wire": len(pkt),
 		"la": la, "t": r.ms(t0), "form": form, "pt": cls})
@@ -240,7 +247,7 @@ func (r *run) doTReply(st step) {
 func (r *run) overdue() []*assocInfo {
 	var out []*assocInfo
 	for _, ai := range r.assocs {
-		if !ai.removed && ai.nw > 0 && time.Since(ai.hiDl) > boundMs*time.Millisecond {
+		if !ai.removed && !ai.hiDl.IsZero() && time.Since(ai.hiDl) > boundMs*time.Millisecond {
 			out = append(out, ai)
 		}
 	}
